@@ -411,12 +411,16 @@ def r06_11_fixed_zone_table(ctx: Ctx) -> RuleResult:
 
         return walk(f.body) or "falls through"
 
-    for seconds in (-64800, -46800, -45000, -43201, -43200, -41400, -1800, -1, 0, 1, 1799, 1800, 20700, 52200, 54000, 54001, 55800, 64800):
+    boundary = (-64800, -46800, -45000, -43201, -43200, -41400, -1800, -1, 0, 1, 1799, 1800, 20700, 52200, 54000, 54001, 55800, 64800)
+    # thorough: EVERY offset of the type's range, second by second (129 601 values)
+    every = boundary if ctx.tier == "quick" else tuple(boundary) + tuple(x for x in range(-64800, 64801) if x not in boundary)
+    for seconds in every:
         rr.inst()
         want = "table" if seconds % 1800 == 0 and -43200 <= seconds <= 54000 else "fresh"
         got = follow(seconds)
+        rr.states += 1
         if got == want:
-            rr.ok({"seconds": seconds, "answer from": got})
+            rr.ok({"seconds": seconds, "answer from": got} if seconds in boundary else None)
         else:
             rr.fail(f.qual, f"an offset of {seconds} s is answered from the {got} path; it must be the {want} one ({'on' if seconds % 1800 == 0 else 'off'} the half-hour grid, {'inside' if -43200 <= seconds <= 54000 else 'outside'} UTC-12 .. UTC+15)", ctx.loc(f))
     return rr
